@@ -40,6 +40,19 @@ try:
         if not list(tc):
             passed.add('%s::%s' % (tc.get('classname'), tc.get('name')))
     missing = sorted(stable - passed)
+    if missing:
+        # hypothesis deadlines flake when the machine is loaded: re-run just the missing tests once, alone
+        ids = ['%s.py::%s' % (m.split('::')[0].replace('.', '/'), m.split('::')[1]) for m in missing]
+        junit2 = os.path.join(wt, 'junit2.xml')
+        run(['/venv/bin/python', '-m', 'pytest', '-q', '-p', 'no:cacheprovider', '--timeout=900', '--junitxml=' + junit2] + ids,
+            cwd=wt, env=env, timeout=3000)
+        try:
+            for tc in ET.parse(junit2).getroot().iter('testcase'):
+                if not list(tc):
+                    passed.add('%s::%s' % (tc.get('classname'), tc.get('name')))
+        except Exception:  # noqa
+            pass
+        missing = sorted(stable - passed)
     verdicts = {}
     for c in checks:
         v = run(['/verif/bin/check', c, '--tier', 'quick'], cwd='/verif', env=dict(os.environ, VERIF_REPO=wt), timeout=3000)
